@@ -379,5 +379,19 @@ theorem reveal_inv : ∀ (fuel : Nat),
           exact (ihR held m s s' hwf h).mono hokm.1
         · simp only [Except.ok.injEq] at h; subst h; exact Rel.refl _ hwf
 
+/-- the state in which `revealDescend` makes its final `inner.reveal()` call -/
+theorem descend_mid (fuel : Nat) (held : List Nat) (r w idx : Nat) (s s1 : St) (upd : Option HVal)
+    (hwf : WF s.heap) (hpre : DescPre s.heap r w idx) (hu : descendUpdated fuel held r w s = .ok (s1, upd)) :
+    Rel (r + 1) s.heap (match upd with
+      | some u => ({ s1 with heap := replaceAt s1.heap r u idx } : St)
+      | none => s1).heap := by
+  obtain ⟨c, xs, hr, ⟨p, g, hp⟩, hidx⟩ := hpre
+  obtain ⟨hrel, hupd⟩ := (reveal_inv fuel).2.2.1 held r w s s1 upd hwf ⟨c, xs, p, g, hr, hp⟩ hu
+  cases upd with
+  | none => exact hrel.mono (by omega)
+  | some u =>
+    obtain ⟨huok, hjust⟩ := hupd u rfl
+    exact replace_rel s.heap s1.heap r w idx c xs u hwf hrel hr hidx huok hjust
+
 end RevealHeap
 end Stackage
